@@ -67,7 +67,13 @@ func New(minValue, maxValue int64, sigfigs int) *Histogram {
 	// overflow:
 	smallestUntrackableValue := int64(subBucketCount) << uint(unitMagnitude)
 	bucketsNeeded := int32(1)
-	for smallestUntrackableValue < maxValue {
+	for smallestUntrackableValue <= maxValue {
+		if smallestUntrackableValue > math.MaxInt64/2 {
+			// the next doubling would overflow; one more
+			// bucket covers the rest of the int64 range.
+			bucketsNeeded++
+			break
+		}
 		smallestUntrackableValue <<= 1
 		bucketsNeeded++
 	}
